@@ -1298,16 +1298,21 @@ class TimePoint:
 
     @property
     def hour_of_day_decimal_string(self):
-        return self._decimal_string("hour_of_day")
+        if self._truncated:
+            return self._decimal_string("hour_of_day")
+        # N.B. The decimal part of the hour includes any minutes and seconds
+        return self._get_decimal_string(
+            self.get_second_of_day() / CALENDAR.SECONDS_IN_HOUR)
 
     @property
     def minute_of_hour_decimal_string(self):
-        if self._minute_of_hour is None:
-            # Decimal hours: the part below the whole minute is in the seconds
-            _, minute, second = self.get_hour_minute_second()
-            return self._get_decimal_string(
-                minute + second / CALENDAR.SECONDS_IN_MINUTE)
-        return self._decimal_string("minute_of_hour")
+        if self._truncated:
+            return self._decimal_string("minute_of_hour")
+        # N.B. The decimal part of the minute includes any seconds (which
+        # for decimal hours are derived from the hour)
+        _, minute, second = self.get_hour_minute_second()
+        return self._get_decimal_string(
+            minute + second / CALENDAR.SECONDS_IN_MINUTE)
 
     @property
     def second_of_minute_decimal_string(self):
